@@ -16,6 +16,7 @@ REBASED = {
     "C18-for-call-cursor": "the extra cursor advance re-introduced on the call-iterable path after the for-block cursor fix",
     "C19-ranger-wrap": "increment-then-test in ranger.Next re-expressed on the done-flag iterator",
     "C20-truncate-bytelen": "byte-length early return re-applied to the rewritten Truncate",
+    "C01-r4a-apostrophe-fastpath": "the same fast path re-applied after the nil *time.Time fix touched the neighbouring case of the sink",
     "C02-r3-bstring-backslash": "the same merge of readString/readBString re-applied after the comment-tag fix touched the neighbouring lines",
     "C18-r4a-bare-hash-swallows-line": "the same extra readChar re-applied after the comment-tag fix added a guard at the top of the # case",
 }
